@@ -64,6 +64,8 @@ type world struct {
 	// ownSig lets a scenario that manipulates ownership itself refine the signature of an M-OWN
 	// finding (e.g. to mark the known stale-observation shape).
 	ownSig func(f sim.Finding) string
+	// statusJudged counts the parent writes judged by M-STATUS
+	statusJudged int
 	// caseID is the case id used in reports (defaults to cfg.ID)
 	caseID string
 }
@@ -361,6 +363,7 @@ func (w *world) observe(key string, run func() error) *syncResult {
 			sim.R().Violation("C17", w.reportID(), "cache-mutated:"+res, "an object in a shared informer cache changed during a sync although its resourceVersion did not (mutated in place):\n"+d,
 				map[string]interface{}{"key": key})
 		}
+		w.judgeParentWrites(res)
 		if res.Cached != nil {
 			parentObj := sim.Obj(res.Cached.Object)
 			ctx := sim.OwnCtx{ParentGVR: w.parentGVR(), ParentKey: key, ParentUID: string(res.Cached.GetUID()), Selector: w.selectorFor(parentObj), RevisionGVR: env.RevisionGVR}
@@ -442,6 +445,7 @@ func (w *world) flushCounters(prop string) {
 		r.Counter("C02", "judged_"+k, int64(w.ownCounts[k]))
 	}
 	r.Counter(prop, "syncs", atomic.LoadInt64(&w.syncs))
+	r.Counter("C11", "parent_writes_judged_by_mstatus", int64(w.statusJudged))
 	if !w.noMonitors {
 		// every scenario is also a C17 case: its syncs ran under the cache-fingerprint oracle
 		r.Case("C17", "mcache-"+w.reportID(), atomic.LoadInt64(&w.cacheObjs) > 0, "mcache/"+w.reportID(), nil)
